@@ -106,6 +106,24 @@ theorem add_sub_cancel (a b : Hardware) (ha : ValidMap a.storage) (hb : ValidMap
   · simp only [mkHardware, hm]; grind
   · rw [mkHardware_total, htr, ht, ← mountTotal_eq_listTotal, normalizeStorage_total hsb]; grind
 
+/-- **what `a − b` is on the mount points `a` has**: cores and memory subtract, and every mount point of `a` gets
+    `a`'s total minus `b`'s total there — whatever keys the storages sit under (several keys per mount point on either
+    side included) -/
+theorem sub_totals (a b r : Hardware) (h : a.sub b = .ok r) :
+    r.cores = a.cores - b.cores ∧ r.memory = a.memory - b.memory ∧
+    ∀ μ ∈ mounts a.storage, mountTotal r.storage μ = mountTotal a.storage μ - mountTotal b.storage μ :=
+  HW.sub_totals h
+
+/-- **subtracting then adding the same requirement restores the original amounts** on every mount point of `a`
+    (`(capacity − requirement) + requirement`), aliasing keys on the left operand included -/
+theorem sub_add_cancel (a b d r : Hardware) (h1 : a.sub b = .ok d) (h2 : d.add b = .ok r) :
+    r.cores = a.cores ∧ r.memory = a.memory ∧
+    ∀ μ ∈ mounts a.storage, mountTotal r.storage μ = mountTotal a.storage μ := by
+  obtain ⟨c1, m1, t1⟩ := HW.sub_totals h1
+  obtain ⟨c2, m2, t2⟩ := add_totals_lem d b r h2
+  refine ⟨by rw [c2, c1]; grind, by rw [m2, m1]; grind, fun μ hμ => ?_⟩
+  rw [t2 μ, t1 μ hμ]; grind
+
 /-- as written: for a mount point `a` lacks, `a − b` *adds* `b`'s amount (the loop of `_reduce_storages` copies the
     first storage it sees for a mount point) instead of raising or going negative -/
 theorem sub_missing_mount_is_add (a b r : Hardware) (h : a.sub b = .ok r) (μ : Name) (hμ : μ ∉ mounts a.storage) :
